@@ -67,6 +67,7 @@ type Enc struct {
 	closureBinds map[string][]Val
 	allocHook func(fr *Frame, st *State, reach string, x ssa.Instruction, ln string, et types.Type)
 	opt *EncOpts
+	paramVals []Val
 	topTags map[string]bool
 	assumed map[string]int
 	retReach []string
